@@ -187,6 +187,10 @@ def prov_rdkit_attrs(repo, tier="quick"):
             m = method_call(inner)
             if m and m[1] == meth:
                 ok = True
+                if key == "hcount" and (m[2] or m[3]):
+                    # GetTotalNumHs(includeNeighbors=True) also counts hydrogens that are atoms of their own
+                    flag = m[3].get("includeNeighbors", m[2][0] if m[2] else ("const", False))
+                    ok = flag == ("const", False)
             if key == "element" and m and m[1] == "GetSymbol":
                 ok = True
         (obs.append(ob_ok(oid, fi, found[key][0].ast if key in found else None, construct="%s <- atom.%s()" % (key, meth), instance="from-rdkit:" + key,
@@ -331,6 +335,24 @@ def prov_ring_edges(repo, tier="quick"):
         (obs.append(ob_ok(oid, fi, h.ast, construct="after a marker: pending ring order = default", instance="reset", reason="the next marker does not inherit this one's order")) if ok else
          obs.append(ob_fail(oid, fi, h.ast, construct="pending ring order not reset after a marker", instance="reset",
                             reason="a second ring marker on the same node inherits the order written for the first")))
+    # at the start of every node's ring scan the pending ring order is the default
+    if loop is not None:
+        outer = enclosing_loops(fi, loop.id)
+        if outer:
+            head = outer[0].id
+            per_node = {d.node for d in resets if [l.id for l in enclosing_loops(fi, d.node)][:1] == [head]}
+            starts = [d for d, lab in cfg.succ[head] if lab in ("iter", "T")]
+            ok = bool(per_node)
+            for s0 in starts:
+                if s0 in per_node:
+                    continue
+                reach = {s0} | cfg.reachable_from(s0, avoid=per_node | {head}, edge_filter=lambda a, b, l: l != "exc")
+                if loop.id in reach:
+                    ok = False
+            (obs.append(ob_ok(oid, fi, loop.ast, construct="per node: pending ring order = default before the marker scan", instance="reset-per-node",
+                              reason="a symbol scanned after one node (for example the chain bond's) cannot become the order of a ring opened on a later node")) if ok else
+             obs.append(ob_fail(oid, fi, loop.ast, construct="marker scan entered without resetting the pending ring order", instance="reset-per-node",
+                                reason="a bond order symbol scanned at an earlier node leaks into the next ring marker that is written without its own symbol")))
     # add_edge for ring edges uses the record's fields
     for call, nid in fl.calls():
         if isinstance(call.func, ast.Attribute) and call.func.attr == "add_edge":
@@ -341,4 +363,183 @@ def prov_ring_edges(repo, tier="quick"):
                 ok = m[2][0] == ("sub", rec, ("const", 0)) and m[2][1] == ("sub", rec, ("const", 1)) and dict(ct[4]).get("order") == ("sub", rec, ("const", 2))
                 (obs.append(ob_ok(oid, fi, call, construct="add_edge(rec[0], rec[1], order=rec[2])", instance="add", reason="the recorded ring bond is added as recorded")) if ok else
                  obs.append(ob_fail(oid, fi, call, construct=show(ct)[:120], instance="add", reason="the ring bond added differs from the recorded (closing node, opening node, order)")))
+    return obs
+
+
+# ---------------------------------------------------------------------------
+# SENT.order-zero: a bond order is never tested for truth (0 is a legitimate order)
+# ---------------------------------------------------------------------------
+ORDER_MODULES = ("resolve", "read_cgsmiles", "read_fragments", "sample", "graph_utils", "write_cgsmiles", "cgsmiles_utils", "pysmiles_utils")
+
+
+def _is_order_value(t):
+    if not isinstance(t, tuple):
+        return False
+    # for u, v, order in G.edges(data='order')
+    if t[0] == "sub" and t[2] == ("const", 2) and t[1][0] == "iter":
+        coll = strip_wrappers(t[1][2])
+        me = method_call(coll, "edges")
+        if me and (dict(coll[4]).get("data") == ("const", "order") or (me[2] and me[2][-1] == ("const", "order"))):
+            return True
+    ev = elem_of(t)
+    if ev and ev[0] == "value":
+        c = is_call(strip_wrappers(ev[1]), "networkx.get_edge_attributes")
+        if c and len(c[0]) > 1 and c[0][1] == ("const", "order"):
+            return True
+    if t[0] == "sub" and t[2] == ("const", "order"):
+        return True
+    m = method_call(t, "get")
+    if m and m[2] and m[2][0] == ("const", "order"):
+        return True
+    if t[0] == "sub" and t[1][0] == "dict":
+        vals = [v for k, v in t[1][1]]
+        if vals and all(v[0] == "const" and isinstance(v[1], (int, float)) for v in vals) and any(v[1] == 0 for v in vals):
+            return True
+    if m and m[0][0] == "dict":
+        vals = [v for k, v in m[0][1]]
+        if vals and all(v[0] == "const" and isinstance(v[1], (int, float)) for v in vals) and any(v[1] == 0 for v in vals):
+            return True
+    return False
+
+
+def _truth_tested(expr):
+    """Sub-expressions of `expr` whose truth value is taken when expr is used as a condition."""
+    if isinstance(expr, ast.BoolOp):
+        out = []
+        for v in expr.values:
+            out += _truth_tested(v)
+        return out
+    if isinstance(expr, ast.UnaryOp) and isinstance(expr.op, ast.Not):
+        return _truth_tested(expr.operand)
+    if isinstance(expr, (ast.Compare, ast.Constant)):
+        return []
+    return [expr]
+
+
+def sent_order_zero(repo, tier="quick"):
+    obs = []
+    oid = "SENT.order-zero"
+    n_tests = 0
+    for mname in ORDER_MODULES:
+        m = repo.module(mname)
+        for fi in m.functions.values():
+            fl, cfg = fi.flow, fi.cfg
+            bad_here = []
+            for sub in ast.walk(fi.node):
+                tested = []
+                if isinstance(sub, (ast.If, ast.While, ast.IfExp)):
+                    tested = _truth_tested(sub.test)
+                elif isinstance(sub, ast.Assert):
+                    tested = _truth_tested(sub.test)
+                elif isinstance(sub, ast.BoolOp):
+                    # value context: every operand but the last is truth-tested
+                    for v in sub.values[:-1]:
+                        tested += _truth_tested(v)
+                elif isinstance(sub, ast.UnaryOp) and isinstance(sub.op, ast.Not):
+                    tested = _truth_tested(sub.operand)
+                elif isinstance(sub, ast.comprehension):
+                    for c in sub.ifs:
+                        tested += _truth_tested(c)
+                for e in tested:
+                    if id(e) not in cfg.owner:
+                        continue
+                    n_tests += 1
+                    try:
+                        t = fl.canon(e, cfg.owner[id(e)])
+                    except Exception:
+                        continue
+                    cands = [t]
+                    if t[0] == "var":
+                        cands = []
+                        for d in [fl.defs[i] for i in t[2]]:
+                            if d.kind == "assign":
+                                cands.append(fl._apply_path(fl.canon(d.value, d.node), d.path))
+                    if any(_is_order_value(c) for c in cands) and not any(e is b for b in bad_here):
+                        bad_here.append(e)
+            for e in bad_here:
+                obs.append(ob_fail(oid, fi, e, construct="truth test on %s" % ast.unparse(e), instance=fi.qualname,
+                                   reason="a bond order is tested for truth: order 0 (a legitimate order: virtual edge / '.') is treated like a missing value"))
+            if not bad_here:
+                obs.append(ob_ok(oid, fi, construct="no truth test on a bond order value", instance=fi.qualname,
+                                 reason="order 0 is never confused with 'no order'"))
+    if n_tests < 30:
+        raise AnalysisError("truth-test scan saw only %d tested expressions (floor 30)" % n_tests)
+    return obs
+
+
+# ---------------------------------------------------------------------------
+# DET.shared-state: results depend on the input alone, not on the history of the process
+# ---------------------------------------------------------------------------
+MUTATING_METHODS = {"append", "extend", "insert", "remove", "pop", "clear", "update", "setdefault", "add", "discard", "popitem", "sort", "reverse"}
+
+
+def det_shared_state(repo, roots, oid="DET.shared-state", tier="quick"):
+    """No function reachable from `roots` keeps state that outlives a call or an instance:
+    class-level mutable attributes that are mutated, module-level containers that are mutated,
+    `global` rebinding, memoising decorators."""
+    obs = []
+    reach = sorted(repo.reachable(roots))
+    # class-level mutable attributes
+    class_attrs = {}
+    for mname, m in repo.modules.items():
+        for cname, cnode in m.classes.items():
+            for st in cnode.body:
+                if isinstance(st, ast.Assign) and isinstance(st.targets[0], ast.Name):
+                    v = st.value
+                    mutable = isinstance(v, (ast.Dict, ast.List, ast.Set, ast.DictComp, ast.ListComp, ast.SetComp)) or \
+                        (isinstance(v, ast.Call) and isinstance(v.func, ast.Name) and v.func.id in ("dict", "list", "set", "defaultdict", "OrderedDict"))
+                    if mutable:
+                        class_attrs[(mname, cname, st.targets[0].id)] = st
+    n_funcs = 0
+    for fq in reach:
+        fi = repo.function(fq)
+        fl, cfg = fi.flow, fi.cfg
+        n_funcs += 1
+        problems = []
+        for sub in ast.walk(fi.node):
+            if isinstance(sub, ast.Global):
+                problems.append((sub, "rebinds module-level name(s) %s" % ", ".join(sub.names)))
+        for dec in fi.node.decorator_list:
+            d = ast.unparse(dec)
+            if "lru_cache" in d or d.endswith("cache") or "cached" in d:
+                problems.append((dec, "memoises its results (@%s): a later call gets the object an earlier call may have modified" % d))
+        # mutation sites whose receiver is a module constant or a class attribute
+        sites = []
+        for call, nid in fl.calls():
+            if isinstance(call.func, ast.Attribute) and call.func.attr in MUTATING_METHODS:
+                sites.append((call, call.func.value, nid))
+        for n in cfg.nodes:
+            if n.kind == "stmt" and isinstance(n.ast, (ast.Assign, ast.AugAssign, ast.Delete)):
+                tg = n.ast.targets if isinstance(n.ast, (ast.Assign, ast.Delete)) else [n.ast.target]
+                for t in tg:
+                    if isinstance(t, ast.Subscript):
+                        sites.append((n.ast, t.value, n.id))
+        for where, recv, nid in sites:
+            try:
+                t = fl.canon(recv, nid)
+            except Exception:
+                continue
+            base = t
+            while base[0] in ("sub", "attr") and not (base[0] == "attr" and base[1][0] == "param"):
+                base = base[1]
+            if base[0] == "modconst":
+                problems.append((where, "mutates the module-level container %s" % base[1]))
+            if base[0] == "attr" and base[1][0] == "param" and base[1][1] in ("self", "cls") and fi.cls:
+                key = (fi.module.name, fi.cls, base[2])
+                if key in class_attrs:
+                    # a class-level container reached through self: shared by all instances unless __init__ rebinds it
+                    init = fi.module.functions.get(fi.cls + ".__init__")
+                    rebound = init is not None and any(d.var == "self." + base[2] and d.kind == "assign" for d in init.flow.defs)
+                    if not rebound:
+                        problems.append((where, "mutates the class-level container %s.%s, which is shared by all instances" % (fi.cls, base[2])))
+            if base[0] == "cls" or (base[0] == "attr" and base[1][0] == "cls"):
+                problems.append((where, "mutates an attribute of the class object"))
+        for where, why in problems:
+            obs.append(ob_fail(oid, fi, where, construct=why, instance=fi.qualname,
+                               reason="state that outlives the call: the same input can give different results depending on what was done before in this process"))
+        if not problems:
+            obs.append(ob_ok(oid, fi, construct="no state outliving the call", instance=fi.qualname,
+                             reason="no class-level or module-level container is mutated, no global is rebound, nothing is memoised"))
+    if n_funcs < 8:
+        raise AnalysisError("shared-state scan reached only %d functions (floor 8)" % n_funcs)
     return obs
